@@ -15,6 +15,7 @@ XMLSchema11 for XSD 1.1. The latter class parses also XSD 1.0 schemas, as prescr
 the standard.
 """
 from abc import ABCMeta
+import dataclasses
 import logging
 import re
 import sys
@@ -296,10 +297,14 @@ class XMLSchemaBase(XsdValidator, ElementPathMixin[Union[SchemaType, XsdElement]
         self.includes = {}
         self.warnings = []
 
+        source_settings: Optional[SchemaSettings] = None
         if isinstance(global_maps, XsdGlobals):
-            if kwargs:
-                ResourceSettings(**kwargs)
             settings = global_maps.settings
+            if kwargs:
+                # Resource options provided for the source (e.g. defuse) override
+                # the ones of the maps, that remain unchanged for other resources.
+                ResourceSettings(**kwargs)
+                source_settings = dataclasses.replace(settings, **kwargs)
             if base_url is None and settings.allow == 'sandbox' and settings.base_url is None:
                 # Without a base each source derives its own sandbox: a schema that
                 # joins the maps is confined to the sandbox of the main schema.
@@ -329,7 +334,7 @@ class XMLSchemaBase(XsdValidator, ElementPathMixin[Union[SchemaType, XsdElement]
             other_sources = []
 
         logger.debug("Load schema from %r", source)
-        self.source = settings.get_schema_resource(source, base_url)
+        self.source = (source_settings or settings).get_schema_resource(source, base_url)
 
         self.name = self.source.name
         root = self.source.root
